@@ -143,5 +143,23 @@ m("c12-retn-handler-called-after-pop",["C12"],"op_callret.go","func oopRETN(cpu 
 m("c12-im0-overlay-end-off-by-one",["C12"],"cpu.go","\t\tend:   pc + uint16(len(d)-1),","\t\tend:   pc + uint16(len(d)),",note="overlay range one byte too long: data[len] is read when the instruction fetches one more byte")
 m("c12-dumbio-refactor",["C12","C15"],"memio.go","func (dio DumbIO) In(addr uint8) uint8 {\n\tif int(addr) >= len(dio) {\n\t\treturn 0\n\t}\n\treturn dio[addr]","func (dio DumbIO) In(addr uint8) uint8 {\n\tif int(addr) < len(dio) {\n\t\treturn dio[addr]\n\t}\n\treturn 0",expect="silent",note="guard inverted, same behaviour")
 
+# ---- C16
+m("c16-resetflag-and",["C16"],"flag.go","gpr.AF.Lo &= ^uint8(f)","gpr.AF.Lo &= uint8(f)")
+m("c16-getflag-all-bits",["C16"],"flag.go","return gpr.AF.Lo&uint8(f) != 0","return gpr.AF.Lo&uint8(f) == uint8(f)",note="differs only for combined masks")
+m("c16-setu16-low-byte",["C16","C01"],"z80.go","r.Lo = uint8(v & 0x00ff)","r.Lo = uint8(v >> 8)")
+m("c16-flagh-value",["C16"],"flag.go","FlagH  Flag = 0x10","FlagH  Flag = 0x08")
+m("c16-setflag-touches-a",["C16"],"flag.go","gpr.AF.Lo |= uint8(f)","gpr.AF.Lo |= uint8(f)\n\tgpr.AF.Hi &= ^uint8(f & 0)\n\tif f == 0xff {\n\t\tgpr.AF.Hi = 0\n\t}",note="A changed for one mask value only")
+m("c16-u16-refactor",["C16","C01"],"z80.go","return (uint16(r.Hi) << 8) | uint16(r.Lo)","return uint16(r.Hi)*256 + uint16(r.Lo)",expect="silent",note="equivalent formulation")
+# ---- C17
+m("c17-mask-bit",["C17"],"internal/zex/doc.go","var DocBITZ80 = Case{\n\t0x53,","var DocBITZ80 = Case{\n\t0x57,")
+m("c17-crc-digit",["C17"],"internal/zex/all.go","CRC32(0x","CRC32(0x1",occ=7,note="one expected CRC altered")
+m("c17-case-dropped",["C17"],"internal/zex/doc.go","\tDocNEGOP,\n","")
+m("c17-shift-vector-bit",["C17"],"internal/zex/doc.go","0xffff, 0xffff, 0xffff, 0xd7, 0x00, 0xffff,","0xffff, 0xffff, 0xfffe, 0xd7, 0x00, 0xffff,",occ=2)
+m("c17-test-skips-a-case",["C17"],"z80_test.go","\tfor _, c0 := range zex.AllCases {\n\t\tc := c0\n","\tfor _, c0 := range zex.AllCases {\n\t\tc := c0\n\t\tif c.Desc == \"<daa,cpl,scf,ccf>\" {\n\t\t\tcontinue\n\t\t}\n")
+m("c17-test-ranges-prefix",["C17"],"z80_test.go","range zex.DocCases {","range zex.DocCases[:60] {")
+m("c17-desc-typo",["C17"],"internal/zex/all.go","\"<rrd,rld>\",","\"<rrd,rld> \",")
+m("c17-status-bytes-order",["C17"],"internal/zex/zex.go","\tbuf[6], buf[7] = fromU16(s.IY)\n\tbuf[8], buf[9] = fromU16(s.IX)","\tbuf[6], buf[7] = fromU16(s.IX)\n\tbuf[8], buf[9] = fromU16(s.IY)")
+m("c17-table-reordered",["C17"],"internal/zex/doc.go","\tDocADC16,\n\tDocADD16,\n","\tDocADD16,\n\tDocADC16,\n",expect="silent",note="order of the cases is not part of the property")
+
 json.dump(M,open("controls.json","w"),indent=1)
 print(len(M),"controls")
